@@ -266,6 +266,8 @@ inline CaseResult run_any(const PropInfo& p, Src& s) { return g_isolate() ? run_
 // ---------------------------------------------------------------------------------------------
 inline CaseResult shrink(const PropInfo& p, CaseResult best, unsigned budget = 3000) {
 	if (g_isolate()) budget = std::min(budget, 200u);
+	// candidates of a hanging case are tried with a short CPU budget (the shrunk case is confirmed with the full budget afterwards)
+	const unsigned savedCpu = g_cpu(); if (best.kind == "died:cpu-budget") { budget = std::min(budget, 40u); g_cpu() = 2; }
 	auto attempt = [&](const std::vector<uint64_t>& cand, CaseResult& out) {
 		if (budget == 0) return false; --budget;
 		Src s(cand); CaseResult r = run_any(p, s);
@@ -296,6 +298,7 @@ inline CaseResult shrink(const PropInfo& p, CaseResult best, unsigned budget = 3
 			if (blk == 1) break;
 		}
 	}
+	g_cpu() = savedCpu;
 	return best;
 }
 
@@ -373,7 +376,7 @@ inline bool name_selected(const std::string& only, const std::string& skipPrefix
 }
 
 inline int engine_main(int argc, char** argv, const char* unitName) {
-	uint64_t seed = 1; uint64_t cases = 1000; std::string out, only, skipPrefix, replay, crumbPath; unsigned shard = 0, shards = 1; unsigned cpuBudget = 20; bool list = false, doShrink = false, thorough = false, noSweeps = false, onlySweeps = false; unsigned maxSize = 100; std::string regen;
+	uint64_t seed = 1; uint64_t cases = 1000; std::string out, only, skipPrefix, replay, crumbPath; unsigned shard = 0, shards = 1; unsigned cpuBudget = 10; bool list = false, doShrink = false, thorough = false, noSweeps = false, onlySweeps = false; unsigned maxSize = 100; std::string regen;
 	for (int i = 1; i < argc; i++) {
 		std::string a = argv[i]; auto val = [&]() { return std::string(i + 1 < argc ? argv[++i] : ""); };
 		if (a == "--seed") seed = strtoull(val().c_str(), nullptr, 10); else if (a == "--cases") cases = strtoull(val().c_str(), nullptr, 10);
